@@ -307,6 +307,18 @@ func checkParseCase(prop string, c *parseCase, col0 *collector, held *[]heldErr)
 			}
 		}
 		compare(r.obj, "Get after ParseVector differs from the vector text")
+		// the parsed object keeps meaning what the vector says while it is only READ: after Vector(), every scoring
+		// method and Nomenclature() - none of which may write into its receiver - the Gets are compared again
+		safely(func() {
+			r.obj.Vector()
+			for _, sc := range versions[c.Ver].Scores {
+				r.obj.Score(sc)
+			}
+			if c.Ver == "4.0" {
+				r.obj.Nomenclature()
+			}
+		})
+		compare(r.obj, "Get differs from the vector text after the parsed object was serialised and scored (read-only calls)")
 		if o2, ok := reparseAfterEdit(c.Ver, r.obj, want); ok && o2 != nil {
 			compare(o2, "Get after ParseVector differs from the vector text (parsed again after the first result was edited)")
 		}
